@@ -56,15 +56,18 @@ def tasks_c01(tier, seed):
         # Q5: query requests, expiry and a concurrent callback of the same (non-default) group
         ts += explore("QEconc", CFG_DEFAULT, 1, shards=8, timeout="100s") + explore("QE1-model", CFG_DEFAULT, 1, shards=2, timeout="100s")
     else:
+        T = "10m"
         for c in cfg_axis():
-            ts += explore("Q1s", c, 2, shards=8, timeout="30m")
-            for s in ("Q2", "Q3", "Q6"):
-                ts += explore(s, c, 2, shards=4, timeout="30m")
-        ts += explore("Q1", CFG_DEFAULT, 2, shards=16, timeout="40m")
-        ts += explore("Q1s", "w1-in4-default-direct", 3, shards=16, timeout="40m")
-        ts += explore("Q2", CFG_DEFAULT, 3, shards=8, timeout="40m")
-        ts += explore("QEconc", CFG_DEFAULT, 2, shards=16, timeout="40m") + explore("QE1-model", CFG_DEFAULT, 2, shards=8, timeout="40m")
-        ts += explore("Q7", CFG_DEFAULT, 2, shards=8, timeout="40m")
+            ts += explore("Q1s", c, 2, shards=8, timeout=T)
+            ts += explore("Q2", c, 3, shards=2, timeout=T)
+        for c in (CFG_DEFAULT, alt, "w3-in1-literal-mount"):
+            ts += explore("Q3", c, 2, shards=8, timeout=T)
+            ts += explore("Q7", c, 2, shards=4, timeout=T)
+        ts += explore("Q6", alt, 2, shards=4, timeout=T) + explore("Q6", "w1-in4-default-direct", 2, shards=8, timeout=T)
+        ts += explore("Q6", CFG_DEFAULT, 1, shards=8, timeout=T)
+        ts += explore("Q1", CFG_DEFAULT, 1, shards=16, timeout=T)
+        ts += explore("Q1s", "w1-in4-default-direct", 3, shards=16, timeout=T)
+        ts += explore("QEconc", CFG_DEFAULT, 2, shards=16, timeout=T) + explore("QE1-model", CFG_DEFAULT, 2, shards=8, timeout=T)
     return ts
 
 
@@ -79,8 +82,12 @@ def tasks_c03(tier, seed):
                 ts += explore(s, CFG_DEFAULT, 1 if big else 2, shards=2 if big else 1, timeout="100s")
     else:
         for s in scens:
-            for c in ("w1-in4-default-direct", CFG_DEFAULT, "w3-in1-literal-mount"):
-                ts += explore(s, c, 3, shards=8, timeout="30m")
+            ts += explore(s, "w1-in4-default-direct", 3, shards=8, timeout="10m")
+            for c in (CFG_DEFAULT, "w3-in1-literal-mount"):
+                if s == "Q6":
+                    ts += explore(s, c, 1, shards=8, timeout="10m")
+                else:
+                    ts += explore(s, c, 2, shards=8, timeout="10m")
     return ts
 
 
@@ -126,8 +133,8 @@ def tasks_c15(tier, seed):
             if not big:
                 ts += explore(s, CFG_DEFAULT, 1, shards=1, timeout="60s")
         else:
-            ts += explore(s, w1, 3, shards=8, timeout="30m")
-            ts += explore(s, CFG_DEFAULT, 2, shards=8, timeout="30m")
+            ts += explore(s, w1, 3, shards=8, timeout="10m")
+            ts += explore(s, CFG_DEFAULT, 2, shards=8, timeout="10m")
     return ts
 
 
@@ -142,9 +149,9 @@ def tasks_c11(tier, seed):
             ts += explore(p + "-badger", "", 2, shards=4 if p == "ST1" else 2, timeout="100s")
             ts += explore(p + "-badger-prefix", "", 1, timeout="100s")
         else:
-            ts += explore(p + "-mock", "", -1, shards=4, timeout="30m")
-            ts += explore(p + "-badger", "", 3, shards=8, timeout="30m")
-            ts += explore(p + "-badger-prefix", "", 3, shards=8, timeout="30m")
+            ts += explore(p + "-mock", "", -1, shards=4, timeout="10m")
+            ts += explore(p + "-badger", "", 3, shards=8, timeout="10m")
+            ts += explore(p + "-badger-prefix", "", 2, shards=8, timeout="10m")
     return ts
 
 
@@ -171,7 +178,7 @@ def tasks_c14(tier, seed):
 def IX_TASKS(tier):
     if tier == "quick":
         return explore("IX1", "", 2, shards=2, timeout="100s")
-    return explore("IX1", "", -1, shards=8, timeout="30m")
+    return explore("IX1", "", -1, shards=8, timeout="10m")
 
 
 def tasks_c16(tier, seed):
@@ -179,7 +186,7 @@ def tasks_c16(tier, seed):
     ts = []
     w1 = "w1-in4-default-direct"
     b = 1 if tier == "quick" else 2
-    to = "100s" if tier == "quick" else "30m"
+    to = "100s" if tier == "quick" else "10m"
     for s in ["S1", "S2", "S3Reset", "S3ResetAll", "S3TokenEvent", "S3TokenEventWithID", "S3TokenReset", "S4", "S6", "S7", "Q6", "L1", "S1L"]:
         ts += explore(s, w1, b + 1 if s in ("S1", "S3Reset", "L1", "S6") else b, race=True, timeout=to)
         if s not in ("Q6", "L1", "S1L"):
@@ -200,7 +207,7 @@ def tasks_c16(tier, seed):
 def STORE_RACE_TASKS(tier):
     ts = []
     b = 1 if tier == "quick" else 2
-    to = "100s" if tier == "quick" else "30m"
+    to = "100s" if tier == "quick" else "10m"
     for p in ST_SCENS:
         ts += explore(p + "-mock", "", b, race=True, timeout=to)
         ts += explore(p + "-badger-prefix", "", b, race=True, shards=2, timeout=to)
